@@ -29,24 +29,25 @@ uint32_t vp_hash_byte(uint32_t k, uint32_t i) { ASSERT(k < vp_hn && i < vp_hlog[
 uint8_t vp_hash_input_eq(uint32_t k, uint32_t l) { ASSERT(k < vp_hn && l < vp_hn, "hash log index"); return qb_eq(vp_hlog[k].in, vp_hlog[l].in); }
 uint8_t vp_hash_output_is(uint32_t k, char *r) { ASSERT(k < vp_hn, "hash log index"); return *(QAD**)r == vp_hlog[k].out; }
 
-/* ---- QStringList out-of-line helpers (libQt5Core). QList<QString> keeps the QString (one pointer) in the slot itself. ---- */
+/* ---- QStringList out-of-line helpers (libQt5Core). QList<QString> keeps the QString (one pointer) in the slot itself.
+   Element i lives in array[begin + i]; begin is the constant LD_B of c20_qt_list.c. ---- */
 #ifdef HAVE_T_struct_QListData__Data
-static QAD *sl_at(struct ld *l, uint32_t i) { return (QAD*)l->array[i]; }
+#define SL(l, i) ((l)->array[LD_B + (i)])
 static int sl_cmp(QAD *a, QAD *b) { return view_cmp(a->f1, qs_chars(a), b->f1, qs_chars(b)); }
 /* removeDuplicates: keeps the first occurrence of every string, in order (Qt contract); returns the number removed */
 uint32_t _ZN9QtPrivate28QStringList_removeDuplicatesEP11QStringList(char *self) { struct ld *l = LD(self); uint32_t n = l->end - l->begin; if (n == 0) return 0;
-  ASSERT(l->ref == 1 && l->begin == 0, "removeDuplicates: list must be detached (model)"); ASSERT(n <= LIST_CAP, "QList capacity of the model exceeded");
+  ASSERT(l->ref == 1 && l->begin == LD_B, "removeDuplicates: list must be detached (model)"); ASSERT(n <= LIST_CAP, "QList capacity of the model exceeded");
   uint8_t keep[LIST_CAP]; uint32_t rank[LIST_CAP]; char *old[LIST_CAP]; uint32_t j = 0;
-  for (uint32_t i = 0; i < LIST_CAP; i++) { keep[i] = 0; rank[i] = j; old[i] = l->array[i]; if (i >= n) continue; uint8_t dup = 0;
+  for (uint32_t i = 0; i < LIST_CAP; i++) { keep[i] = 0; rank[i] = j; old[i] = SL(l, i); if (i >= n) continue; uint8_t dup = 0;
     for (uint32_t k = 0; k < LIST_CAP; k++) { if (k >= i) break; if (d_eq((QAD*)old[k], (QAD*)old[i])) dup = 1; }
     keep[i] = !dup; if (!dup) j++; }
-  for (uint32_t p = 0; p < LIST_CAP; p++) { if (p >= n) break; for (uint32_t i = 0; i < LIST_CAP; i++) { if (i >= n) break; if (i >= p && keep[i] && rank[i] == p) l->array[p] = old[i]; } }
-  l->end = j; return n - j; }
+  for (uint32_t p = 0; p < LIST_CAP; p++) { if (p >= n) break; for (uint32_t i = 0; i < LIST_CAP; i++) { if (i >= n) break; if (i >= p && keep[i] && rank[i] == p) SL(l, p) = old[i]; } }
+  l->end = l->begin + j; return n - j; }
 /* sort: ascending by code units (case sensitive); bubble network over fixed slots */
 void _ZN9QtPrivate16QStringList_sortEP11QStringListN2Qt15CaseSensitivityE(char *self, uint32_t cs) { struct ld *l = LD(self); uint32_t n = l->end - l->begin; if (n < 2) return;
-  ASSERT(cs == 1, "case-insensitive sort not modelled"); ASSERT(l->ref == 1 && l->begin == 0, "QStringList::sort: list must be detached (model)"); ASSERT(n <= LIST_CAP, "QList capacity of the model exceeded");
+  ASSERT(cs == 1, "case-insensitive sort not modelled"); ASSERT(l->ref == 1 && l->begin == LD_B, "QStringList::sort: list must be detached (model)"); ASSERT(n <= LIST_CAP, "QList capacity of the model exceeded");
   for (uint32_t pass = 0; pass + 1 < LIST_CAP; pass++) { if (pass + 1 >= n) break;
-    for (uint32_t k = 0; k + 1 < LIST_CAP; k++) { if (k + 1 >= n) break; if (sl_cmp((QAD*)l->array[k + 1], (QAD*)l->array[k]) < 0) { char *t = l->array[k]; l->array[k] = l->array[k + 1]; l->array[k + 1] = t; } } } }
+    for (uint32_t k = 0; k + 1 < LIST_CAP; k++) { if (k + 1 >= n) break; if (sl_cmp((QAD*)SL(l, k + 1), (QAD*)SL(l, k)) < 0) { char *t = SL(l, k); SL(l, k) = SL(l, k + 1); SL(l, k + 1) = t; } } } }
 void _ZN9QtPrivate16QStringList_joinEPK11QStringListPK5QChari(char *ret, char *self, char *sep, uint32_t seplen) { struct ld *l = LD(self); uint32_t n = l->end - l->begin; *(QAD**)ret = qs_new(0, 0);
   ASSERT(n <= LIST_CAP, "QList capacity of the model exceeded");
   for (uint32_t i = 0; i < LIST_CAP; i++) { if (i >= n) break; if (i > 0 && seplen) qs_append_raw(ret, (uint16_t*)sep, seplen, seplen);
@@ -80,7 +81,7 @@ void _ZNK8QVariant8toStringEv(char *ret, char *self) { struct qv *a = (struct qv
 #ifdef HAVE_T_struct_QListData__Data
 void _ZNK8QVariant12toStringListEv(char *ret, char *self) { struct qv *a = (struct qv*)self; qv_check(a);
   if (QV_TYPE(a) == QV_STRINGLIST) { struct ld *l = (struct ld*)a->ptr; if (l->ref != (uint32_t)-1 && l->ref != 0) l->ref++; *(struct ld**)ret = l; return; }
-  if (QV_TYPE(a) == QV_STRING) { struct ld *t = ld_new(1); t->array[0] = (char*)qad_ref((QAD*)a->ptr); *(struct ld**)ret = t; return; }   /* Qt: QStringList(string), also for an empty string */
+  if (QV_TYPE(a) == QV_STRING) { struct ld *t = ld_new(1); t->array[LD_B] = (char*)qad_ref((QAD*)a->ptr); *(struct ld**)ret = t; return; }   /* Qt: QStringList(string), also for an empty string */
   *(struct ld**)ret = ld_new(0); }
 #endif
 void _ZNK14QMessageLogger7warningEPKcz(char *self, char *fmt, ...) { }
@@ -97,4 +98,22 @@ void _ZNK14QMessageLogger7warningEPKcz(char *self, char *fmt, ...) { }
 static uint32_t qlist_iter_minus(char *self, char *j) { char *a = *(char**)self, *b = *(char**)j; ASSERT(VP_SAME_OBJ(a, b), "QList iterator difference across blocks"); return (uint32_t)(VP_PDIFF(a, b) / 8); }
 uint32_t _ZNK5QListIN16QXmppDiscoveryIq8IdentityEE8iteratormiES3_(char *self, char *j) { return qlist_iter_minus(self, j); }
 uint32_t _ZNK5QListI7QStringE8iteratormiES2_(char *self, char *j) { return qlist_iter_minus(self, j); }
+
+/* ---- QStringBuilder leaves.  The header code writes through a raw QChar* at a symbolic offset into the block that
+   operator+= reserved (memcpy / *out++ = c); such a raw store makes cbmc treat the whole block (length, hint, ref) as one
+   opaque value.  Same effect, but stored through the typed data member of the block. ---- */
+static void qs_store(uint16_t *out, uint32_t i, uint16_t c) {
+#ifdef __CPROVER__
+  ASSERT(vp_qs_wr != 0 && __CPROVER_POINTER_OBJECT(out) == __CPROVER_POINTER_OBJECT(vp_qs_wr), "QStringBuilder writes into a block other than the one just detached");
+  uint64_t off = __CPROVER_POINTER_OFFSET(out); uint64_t k = (off - QS_OFF) / 2 + i;
+  ASSERT(off >= QS_OFF && k < QS_CAP, "QStringBuilder writes outside a model string block"); ((struct qs*)vp_qs_wr)->data[k] = c;
+#else
+  out[i] = c;
+#endif
+}
+#define C20_HINT16(d) ((d)->f3 == QS_OFF ? ((struct qs*)(d))->hint : (d)->f1)
+void _ZN13QConcatenableI7QStringE8appendToERKS0_RP5QChar(char *a, char *outp) { QAD *s = *(QAD**)a; uint16_t *out = *(uint16_t**)outp;
+  for (uint32_t i = 0; i < C20_HINT16(s); i++) { if (i >= s->f1) break; qs_store(out, i, ((uint16_t*)((char*)s + s->f3))[i]); } *(uint16_t**)outp = out + s->f1; }
+void _ZN13QConcatenableIDsE8appendToEDsRP5QChar(uint16_t c, char *outp) { uint16_t *out = *(uint16_t**)outp; qs_store(out, 0, c); *(uint16_t**)outp = out + 1; }
+void _ZN13QConcatenableIA2_KDsE8appendToEPS0_RP5QChar(char *lit, char *outp) { uint16_t *out = *(uint16_t**)outp; qs_store(out, 0, ((uint16_t*)lit)[0]); *(uint16_t**)outp = out + 1; }
 #endif
